@@ -128,7 +128,16 @@ def parse_diagnostics(stderr_text, manifest, unit_lines, safety_clause):
         prim = next((s for s in spans if s.get("is_primary")), spans[0] if spans else None)
         rendered = d.get("rendered", "")
         if prim is None or d.get("code"):
-            tool.append({"description": msg, "site": "-", "kind": "tool", "verifier_output": rendered})
+            rec = {"description": msg, "site": "-", "kind": "tool", "verifier_output": rendered}
+            if prim is not None:
+                # a compile error inside spliced hint text (e.g. the hint names a local that the changed
+                # code renamed): the driver retries with the hints of that function dropped
+                po = origin_of(manifest, prim["line_start"])
+                pf = fn_of_line(manifest, unit_lines, prim["line_start"])
+                rec["site"] = site_of(po)
+                if po.startswith("hint:") and pf:
+                    rec["hint_fn"] = pf["anchor"]
+            tool.append(rec)
             continue
         pl = prim["line_start"]
         porigin = origin_of(manifest, pl)
@@ -224,13 +233,16 @@ def verus_cmd(path, extra=None):
     return ["verus", path, "--multiple-errors", "60", "--output-json", "--time", "--error-format=json"] + (extra or [])
 
 
-def run_unit(scratch, unit, prefixes, prop, tier, safety_default=None):
+def run_unit(scratch, unit, prefixes, prop, tier, safety_default=None, drop_hints=None):
     work = os.path.join(scratch, "verus-" + unit)
     os.makedirs(work, exist_ok=True)
     vrs = os.path.join(CONTRACTS, unit + ".vrs")
     out_rs = os.path.join(work, "unit.rs")
     out_mf = os.path.join(work, "unit.manifest.json")
-    rc, so, se, w0 = run([XTRACT, scratch, vrs, out_rs, out_mf], timeout=120)
+    xenv = dict(os.environ)
+    if drop_hints:
+        xenv["XTRACT_DROP_HINTS"] = ",".join(sorted(drop_hints))
+    rc, so, se, w0 = run([XTRACT, scratch, vrs, out_rs, out_mf], timeout=120, env=xenv)
     if rc != 0:
         raise Undecided("xtract %s: %s" % (unit, (se or so).strip()[-600:]))
     manifest = json.load(open(out_mf))
@@ -256,6 +268,9 @@ def run_unit(scratch, unit, prefixes, prop, tier, safety_default=None):
         raise Undecided("verus produced no JSON for unit %s: %s" % (unit, (se or so)[-800:]))
     vr = res.get("verification-results", {})
     failures, tool = parse_diagnostics(se, manifest, unit_lines, safety)
+    bad_hint_fns = {t["hint_fn"] for t in tool if t.get("hint_fn")} - set(drop_hints or ())
+    if bad_hint_fns:
+        return run_unit(scratch, unit, prefixes, prop, tier, safety_default, set(drop_hints or ()) | bad_hint_fns)
     if vr.get("encountered-vir-error") or (not vr.get("success") and not failures and not tool):
         raise Undecided("verus could not process unit %s (dialect/type error): %s" % (unit, se[-1500:]))
     funcs = []
